@@ -285,6 +285,8 @@ async fn run_peek(flight: &[u8], segs: &[usize], close: bool, lockstep: bool) ->
 
 /// `pause`: the next segment is late by this much (Hello.tla: a pause between two Sends is a stuttering step)
 async fn run_peek_paused(flight: &[u8], segs: &[usize], close: bool, lockstep: bool, pause: Duration) -> Result<PeekObs, String> {
+    // forty scenarios in which the loop (or the replay) hung tell the story: the rest is not run
+    if STUCK.load(std::sync::atomic::Ordering::Relaxed) >= 40 { return Err("not run".into()); }
     let listener = TcpListener::bind("127.0.0.1:0").await.map_err(|e| e.to_string())?;
     let addr = listener.local_addr().unwrap();
     let total = flight.len();
@@ -297,6 +299,7 @@ async fn run_peek_paused(flight: &[u8], segs: &[usize], close: bool, lockstep: b
         // read back what the TLS stack would be given; classify each read by its source
         let mut got = Vec::new();
         let mut log: Vec<(bool, usize)> = Vec::new(); // (from the socket?, n)
+        let mut wrote = false;
         // read sizes of the consumer vary with the scenario (the specification's ReadClasses)
         let mut buf = vec![0u8; if total > 600 { 4096 } else { [4096, 1, 7, 100][nsegs % 4] }];
         while got.len() < total || close {
@@ -308,6 +311,13 @@ async fn run_peek_paused(flight: &[u8], segs: &[usize], close: bool, lockstep: b
             let after = peeked.prebuffer().1;
             log.push((after == before, n));
             got.extend_from_slice(&buf[..n]);
+            // Hello.tla TlsWrite: the TLS stack may answer before it has read everything it was sent (a large hello that
+            // is complete within its first read, more records behind it); what it writes changes nothing of what it reads
+            if !wrote {
+                wrote = true;
+                use tokio::io::AsyncWriteExt;
+                let _ = peeked.write_all(&[0x15, 0x03, 0x03]).await;
+            }
             if got.len() > total + 4096 {
                 break; // more than was ever sent: judged as a transparency violation, not read forever
             }
@@ -396,6 +406,7 @@ fn judge(rep: &mut Report, f: &Flt, segs: &[usize], mode: &str, obs: &Result<Pee
     let detail = |extra: Value| json!({"flight": f.name, "dir": f.dir, "total": f.total, "segs": segs, "mode": mode, "observed": extra,
                                       "allowed": allowed.map(|s| s.iter().map(|x| json!([x.0, x.1])).collect::<Vec<_>>())});
     let o = match obs {
+        Err(e) if e == "not run" => { rep.count("not_run_after_hangs", 1); return false; }
         Err(e) => {
             rep.violation_with(sig(mode, f, "stuck"), format!("prebuffer loop: {}", e), || detail(json!(e)));
             return false;
